@@ -27,15 +27,22 @@ import (
 	"github.com/mmcloughlin/avo/reg"
 )
 
-// C13: data sections.  Random placement sequences through the real
-// build.Context / ir.Global API (overlapping, adjacent, zero-length,
-// out-of-order, appends after gaps, grows), all constant kinds with boundary
-// values: exact comparison of accept/reject flags, data list, size and the
-// printed DATA/GLOBL lines with the Lean model; acceptors stating the property
-// on the implementation's own output; MEASURED: the printed file is built with
-// the Go toolchain and the bytes of every symbol are read from the running
-// binary and compared with the model image.  Floats are measured: the printed
-// decimal is converted the way cmd/asm does (ParseFloat 64, then float32).
+// C13: data sections.  Random placement sequences through five entry points of
+// the real code (Context methods, Context.ConstData, the package-level
+// build.GLOBL/DATA/ConstData on a swapped-in context, ir.Global directly), with
+// other sections in the same file, small sections and tables of up to 400 data
+// (overlapping, adjacent, zero-length, out-of-order, negative offsets, appends
+// after gaps, grows), all constant kinds with boundary values.  Exact
+// comparison with the Lean model: accept/reject flags, data list, size (no
+// negative offsets) and the printed block of in-order sections.  Acceptors on
+// the implementation's own output: accept-data, accept-attrs, accept-lines
+// (every section), accept-int/str/f32/f64.  MEASURED: the printed file is built
+// with the Go toolchain and the bytes of every symbol are read from the running
+// binary (accept-asm); a failing batch is narrowed to the guilty sections;
+// out-of-order / negative sections are assembled alone and the class of the
+// assembler's complaint is part of the request (findings F14, C13-NEGOFF).
+// Floats are measured: the printed text is read the way cmd/asm does (a float
+// token -> ParseFloat 64, then float32; NO decimal point -> an integer).
 
 // ---------------------------------------------------------------- constants
 
@@ -111,9 +118,13 @@ func c13floatText(v operand.Constant) string {
 	return ""
 }
 
-// c13asmFloat is what cmd/asm does with a float DATA value of n bytes:
-// strconv.ParseFloat(text, 64), then a float32 conversion for 4 bytes
-// (asm.go asmData: WriteFloat32(float32(val.(float64)))).
+// c13asmFloat is what cmd/asm does with a parenthesised DATA value `$(text)` of
+// n bytes.  The operand is a floating-point constant only when the scanner sees
+// a float token (a decimal point or an exponent): then strconv.ParseFloat(text,
+// 64) and a float32 conversion for 4 bytes (asm.go asmData:
+// WriteFloat32(float32(val.(float64)))).  WITHOUT a float token the operand is an
+// integer expression (issue 387): `$(2)` stores the integer 2 (parse.go: atoi =
+// ParseUint(s, 0, 64); asmData: WriteInt), truncated to n bytes.
 func c13asmFloat(text string, n int) (uint64, bool) {
 	neg := false
 	t := text
@@ -122,6 +133,22 @@ func c13asmFloat(text string, n int) (uint64, bool) {
 			neg = !neg
 		}
 		t = t[1:]
+	}
+	if !strings.ContainsAny(t, ".eEpP") || strings.HasPrefix(t, "0x") || strings.HasPrefix(t, "0X") {
+		if strings.ContainsAny(t, ".pP") { // hexadecimal float: not produced by FormatFloat(…,'f',…)
+			return 0, false
+		}
+		u, err := strconv.ParseUint(t, 0, 64)
+		if err != nil {
+			return 0, false
+		}
+		if neg {
+			u = -u
+		}
+		if n == 4 {
+			u &= 0xffffffff
+		}
+		return u, true
 	}
 	v, err := strconv.ParseFloat(t, 64)
 	if err != nil {
@@ -352,11 +379,26 @@ type c13datum struct {
 	c   c13const
 }
 
+// How the section is built.
+const (
+	c13viaCtx      = 0 // Context.StaticGlobal + DataAttributes + AddDatum / AppendDatum
+	c13viaCtxConst = 1 // Context.ConstData (a single constant)
+	c13viaPkg      = 2 // package-level build.GLOBL + build.DATA on a swapped-in context (appends: Context.AppendDatum)
+	c13viaPkgConst = 3 // package-level build.ConstData
+	c13viaIRDirect = 4 // ir.NewStaticGlobal + Global.AddDatum / Append, added to the file with AddSection
+	c13numVia      = 5
+)
+
 type c13case struct {
 	name  string
 	attrs attr.Attribute
 	ops   []c13op
-	viaConstData bool
+	via   int
+	decoy bool // other sections before and after it in the same file, written to while this one is not active
+}
+
+func (c c13case) isConst() bool {
+	return (c.via == c13viaCtxConst || c.via == c13viaPkgConst) && len(c.ops) == 1 && c.ops[0].kind == 'a'
 }
 
 type c13result struct {
@@ -365,8 +407,11 @@ type c13result struct {
 	flags    []bool
 	data     []c13datum
 	size     int
-	block    string // DATA…GLOBL lines of the printed file
-	attrText string
+	block    string // every printed line that is not blank, a comment, an #include or a decoy's
+	attrText string // Attributes.Asm() of the section (echoed into the exact text comparison)
+	attrReq  int    // attributes asked for
+	attrGot  int    // attributes stored in the section
+	attrEval int    // value of the attribute text on the printed GLOBL line per the toolchain's textflag.h (-1: not evaluable)
 }
 
 // c13apply runs the ops on ctx (a fresh section `name`); returns the section.
@@ -377,6 +422,18 @@ func c13apply(ctx *build.Context, c c13case, flags *[]bool) *ir.Global {
 
 // c13newDatum finds the datum that is in `after` but not in `before`.
 func c13newDatum(before, after []ir.Datum) (ir.Datum, bool) {
+	if len(after) == len(before)+1 { // the usual case: added at the end
+		same := true
+		for i := range before {
+			if before[i].Offset != after[i].Offset || before[i].Value != after[i].Value {
+				same = false
+				break
+			}
+		}
+		if same {
+			return after[len(after)-1], true
+		}
+	}
 	used := make([]bool, len(before))
 outer:
 	for _, d := range after {
@@ -391,44 +448,160 @@ outer:
 	return ir.Datum{}, false
 }
 
+var c13hdr map[string]int
+
+// c13textflags reads the macro values of the toolchain's textflag.h (the
+// assembler's view of the attribute names; independent of avo's attr package).
+func c13textflags() map[string]int {
+	if c13hdr != nil {
+		return c13hdr
+	}
+	c13hdr = map[string]int{}
+	data, err := os.ReadFile(filepath.Join(goroot(), "pkg", "include", "textflag.h"))
+	if err != nil {
+		return c13hdr
+	}
+	for _, l := range strings.Split(string(data), "\n") {
+		fs := strings.Fields(l)
+		if len(fs) >= 3 && fs[0] == "#define" {
+			if v, err := strconv.Atoi(fs[2]); err == nil {
+				c13hdr[fs[1]] = v
+			}
+		}
+	}
+	return c13hdr
+}
+
+// c13evalAttr values an attribute expression `A|B|8` the way the assembler does.
+func c13evalAttr(text string) int {
+	hdr := c13textflags()
+	v := 0
+	for _, t := range strings.Split(text, "|") {
+		t = strings.TrimSpace(t)
+		if n, err := strconv.Atoi(t); err == nil && n >= 0 {
+			v |= n
+		} else if m, ok := hdr[t]; ok {
+			v |= m
+		} else {
+			return -1
+		}
+	}
+	return v
+}
+
+// c13globlAttr extracts the attribute text of `GLOBL sym(SB), attr, $size`.
+func c13globlAttr(block, sym string) (string, bool) {
+	for _, l := range strings.Split(block, "\n") {
+		pre := "GLOBL " + sym + "(SB), "
+		if strings.HasPrefix(l, pre) {
+			rest := l[len(pre):]
+			if i := strings.LastIndex(rest, ", $"); i >= 0 {
+				return rest[:i], true
+			}
+		}
+	}
+	return "", false
+}
+
+func c13decoyNames(name string) []string { return []string{name + "pre", name + "post"} }
+
 func c13applyAt(ctx *build.Context, c c13case, flags *[]bool) (*ir.Global, []int) {
 	var at []int
-	if c.viaConstData && len(c.ops) == 1 && c.ops[0].kind == 'a' {
+	pkg := c.via == c13viaPkg || c.via == c13viaPkgConst
+	if pkg {
+		old := build.VerifSwapContext(ctx)
+		defer build.VerifSwapContext(old)
+	}
+	if c.decoy {
+		ctx.StaticGlobal(c.name + "pre")
+		ctx.DataAttributes(attr.NOPTR)
+		ctx.AddDatum(0, operand.U64(0x1111111111111111))
+		ctx.AddDatum(8, operand.U32(0x22222222))
+	}
+	var g *ir.Global
+	last := func() *ir.Global {
+		f, _ := ctx.Result()
+		return f.Sections[len(f.Sections)-1].(*ir.Global)
+	}
+	switch {
+	case c.isConst() && c.via == c13viaCtxConst:
 		ctx.ConstData(c.name, c.ops[0].c.op())
-		*flags = append(*flags, true)
-	} else {
+	case c.isConst():
+		build.ConstData(c.name, c.ops[0].c.op())
+	case c.via == c13viaPkg:
+		build.GLOBL(c.name, c.attrs)
+	case c.via == c13viaIRDirect:
+		g = ir.NewStaticGlobal(c.name)
+		g.Attributes = c.attrs
+		f, _ := ctx.Result()
+		f.AddSection(g)
+	default:
 		ctx.StaticGlobal(c.name)
 		ctx.DataAttributes(c.attrs)
 	}
-	f, _ := ctx.Result()
-	g := f.Sections[len(f.Sections)-1].(*ir.Global)
-	if c.viaConstData && len(c.ops) == 1 && c.ops[0].kind == 'a' {
+	if g == nil {
+		g = last()
+	}
+	if c.isConst() {
+		*flags = append(*flags, true)
 		off := 0
 		if len(g.Data) > 0 {
 			off = g.Data[len(g.Data)-1].Offset
 		}
-		return g, []int{off}
-	}
-	for _, op := range c.ops {
-		at = append(at, 0)
-		switch op.kind {
-		case 'p':
-			before := ctx.VerifErrCount()
-			ctx.AddDatum(op.off, op.c.op())
-			*flags = append(*flags, ctx.VerifErrCount() == before)
-		case 'a':
-			before := append([]ir.Datum(nil), g.Data...)
-			ctx.AppendDatum(op.c.op())
-			*flags = append(*flags, true)
-			if d, ok := c13newDatum(before, g.Data); ok {
-				at[len(at)-1] = d.Offset
+		at = []int{off}
+	} else {
+		for _, op := range c.ops {
+			at = append(at, 0)
+			switch op.kind {
+			case 'p':
+				switch c.via {
+				case c13viaPkg:
+					before := ctx.VerifErrCount()
+					build.DATA(op.off, op.c.op())
+					*flags = append(*flags, ctx.VerifErrCount() == before)
+				case c13viaIRDirect:
+					err := g.AddDatum(ir.NewDatum(op.off, op.c.op()))
+					*flags = append(*flags, err == nil)
+				default:
+					before := ctx.VerifErrCount()
+					ctx.AddDatum(op.off, op.c.op())
+					*flags = append(*flags, ctx.VerifErrCount() == before)
+				}
+			case 'a':
+				before := append([]ir.Datum(nil), g.Data...)
+				if c.via == c13viaIRDirect {
+					g.Append(op.c.op())
+				} else {
+					ctx.AppendDatum(op.c.op())
+				}
+				*flags = append(*flags, true)
+				if d, ok := c13newDatum(before, g.Data); ok {
+					at[len(at)-1] = d.Offset
+				}
+			case 'g':
+				g.Grow(op.off)
+				*flags = append(*flags, true)
 			}
-		case 'g':
-			g.Grow(op.off)
-			*flags = append(*flags, true)
 		}
 	}
+	if c.decoy {
+		// a later section becomes the active one: writes go there, not into ours
+		ctx.StaticGlobal(c.name + "post")
+		ctx.DataAttributes(attr.NOPTR)
+		ctx.AddDatum(0, operand.U32(7))
+		ctx.AppendDatum(operand.U8(9))
+	}
 	return g, at
+}
+
+// c13attrReq is the attribute value the caller asked for: ConstData promises a
+// read-only, pointer-free section (textflag.h's RODATA|NOPTR).
+func c13attrReq(c c13case) int {
+	if c.isConst() {
+		h := c13textflags()
+		return h["RODATA"] | h["NOPTR"]
+	}
+	return int(uint16(c.attrs))
 }
 
 func c13run(c c13case) (res c13result) {
@@ -445,19 +618,42 @@ func c13run(c c13case) (res c13result) {
 	}
 	res.size = g.Size
 	res.attrText = g.Attributes.Asm()
+	res.attrReq = c13attrReq(c)
+	res.attrGot = int(uint16(g.Attributes))
 	f, _ := ctx.Result() // placement errors are expected: print what was built
 	out, err := printer.NewGoAsm(printer.Config{Name: "avoh", Pkg: "p"}).Print(f)
 	if err != nil {
 		panic(err)
 	}
-	var blk []string
-	for _, l := range strings.Split(string(out), "\n") {
-		if strings.HasPrefix(l, "DATA ") || strings.HasPrefix(l, "GLOBL ") {
-			blk = append(blk, l+"\n")
-		}
+	res.block = c13blockOf(string(out), c)
+	res.attrEval = -1
+	if t, ok := c13globlAttr(res.block, c.name+"<>"); ok {
+		res.attrEval = c13evalAttr(t)
 	}
-	res.block = strings.Join(blk, "")
 	return
+}
+
+// c13blockOf keeps every printed line except blank lines, comments, #include
+// lines and the lines of the decoy sections: anything unexpected stays in the
+// block and makes it unreadable for the acceptor.
+func c13blockOf(out string, c c13case) string {
+	var blk []string
+lines:
+	for _, l := range strings.Split(out, "\n") {
+		t := strings.TrimSpace(l)
+		if t == "" || strings.HasPrefix(t, "//") || strings.HasPrefix(t, "#include ") {
+			continue
+		}
+		if c.decoy {
+			for _, dn := range c13decoyNames(c.name) {
+				if strings.HasPrefix(l, "DATA "+dn+"<>") || strings.HasPrefix(l, "GLOBL "+dn+"<>") {
+					continue lines
+				}
+			}
+		}
+		blk = append(blk, l+"\n")
+	}
+	return strings.Join(blk, "")
 }
 
 func c13genCase(r *rng, k int) c13case {
@@ -474,9 +670,20 @@ func c13genCase(r *rng, k int) c13case {
 	default:
 		c.attrs = attr.RODATA | attr.NOPTR
 	}
+	c.via = pick(r, []int{c13viaCtx, c13viaCtx, c13viaCtx, c13viaPkg, c13viaPkg, c13viaIRDirect})
+	c.decoy = r.chance(1, 5)
 	if r.chance(1, 12) {
-		c.viaConstData = true
+		c.via = pick(r, []int{c13viaCtxConst, c13viaPkgConst})
 		c.ops = []c13op{{kind: 'a', c: c13randConst(r)}}
+		return c
+	}
+	// sections with many data (tables): every tier
+	switch r.intn(60) {
+	case 0:
+		c13genLarge(r, &c, r.rangeIn(100, 400))
+		return c
+	case 1, 2:
+		c13genLarge(r, &c, r.rangeIn(10, 60))
 		return c
 	}
 	// track what a straightforward reading of the calls gives, only to aim the generator
@@ -578,6 +785,123 @@ func c13genCase(r *rng, k int) c13case {
 	return c
 }
 
+// c13smallConst: a fixed-size constant (tables are made of these).
+func c13smallConst(r *rng) c13const {
+	switch r.intn(8) {
+	case 0:
+		return c13const{kind: "f32", u: uint64(c13randF32(r))}
+	case 1:
+		return c13const{kind: "f64", u: c13randF64(r)}
+	case 2:
+		s := c13randString(r)
+		if len(s) > 12 {
+			s = s[:r.intn(12)]
+		}
+		return c13const{kind: "s", s: s}
+	}
+	return c13intConst(pick(r, c13intKinds), r.u64()>>uint(r.intn(64)))
+}
+
+// c13genLarge builds a section with about n data (a lookup table: adjacent or
+// gapped entries, in increasing or shuffled order) followed by probes aimed at
+// entries chosen uniformly over the WHOLE table: overlaps by one byte at either
+// end, exact duplicates, containment, exact fits into gaps, zero-length strings
+// at entry boundaries, placements past the end.  An overlap structure that is
+// only right for a few entries (or for the most recent ones) decides a probe
+// differently from the property.
+func c13genLarge(r *rng, c *c13case, n int) {
+	type iv struct{ lo, hi int }
+	var ivs []iv
+	var gaps []iv
+	var ops []c13op
+	off := 0
+	if r.chance(1, 4) {
+		off = r.rangeIn(1, 64)
+		gaps = append(gaps, iv{0, off})
+	}
+	gappy := r.chance(1, 2)
+	for i := 0; i < n; i++ {
+		cst := c13smallConst(r)
+		if gappy && r.chance(1, 4) {
+			g := r.rangeIn(1, 9)
+			gaps = append(gaps, iv{off, off + g})
+			off += g
+		}
+		sz := cst.size()
+		if r.chance(1, 5) && !gappy {
+			ops = append(ops, c13op{kind: 'a', off: off, c: cst}) // append == place at the end while nothing was skipped
+		} else {
+			ops = append(ops, c13op{kind: 'p', off: off, c: cst})
+		}
+		ivs = append(ivs, iv{off, off + sz})
+		off += sz
+	}
+	switch r.intn(4) { // 2, 3: in increasing order (these can be assembled and read back)
+	case 0: // shuffled order of placement (appends become placements at their offsets)
+		for i := range ops {
+			ops[i].kind = 'p'
+		}
+		for i := len(ops) - 1; i > 0; i-- {
+			j := r.intn(i + 1)
+			ops[i], ops[j] = ops[j], ops[i]
+		}
+	case 1: // reversed
+		for i := range ops {
+			ops[i].kind = 'p'
+		}
+		for i, j := 0, len(ops)-1; i < j; i, j = i+1, j-1 {
+			ops[i], ops[j] = ops[j], ops[i]
+		}
+	}
+	size := off
+	probes := r.rangeIn(4, 24)
+	for i := 0; i < probes; i++ {
+		cst := c13smallConst(r)
+		sz := cst.size()
+		v := pick(r, ivs)
+		op := c13op{kind: 'p', c: cst}
+		switch r.intn(9) {
+		case 0: // last byte of the probe on the first byte of the entry
+			op.off = v.lo - sz + 1
+		case 1: // first byte of the probe on the last byte of the entry
+			op.off = v.hi - 1
+		case 2: // same offset
+			op.off = v.lo
+		case 3: // just before / just after (fits only if there is room)
+			op.off = pick(r, []int{v.lo - sz, v.hi})
+		case 4: // exact fit into a gap, or one byte too long
+			if len(gaps) > 0 {
+				g := pick(r, gaps)
+				w := g.hi - g.lo + r.intn(2)
+				op.c = c13const{kind: "s", s: strings.Repeat("x", w)}
+				op.off = g.lo
+			} else {
+				op.off = v.lo + r.intn(v.hi-v.lo+1)
+			}
+		case 5: // zero-length string at a boundary or inside
+			op.c = c13const{kind: "s", s: ""}
+			op.off = pick(r, []int{v.lo, v.hi, (v.lo + v.hi) / 2})
+		case 6: // past the end
+			op.off = size + r.intn(4)
+			size = op.off + sz
+			ivs = append(ivs, iv{op.off, op.off + sz})
+		case 7: // an append in between
+			op.kind = 'a'
+			op.off = size
+			size += sz
+			ivs = append(ivs, iv{op.off, op.off + sz})
+		default: // a wide constant covering several entries
+			op.c = c13const{kind: "s", s: strings.Repeat("w", r.rangeIn(9, 40))}
+			op.off = v.lo - r.intn(3)
+		}
+		if op.kind == 'p' && op.off < 0 {
+			op.off = 0
+		}
+		ops = append(ops, op)
+	}
+	c.ops = ops
+}
+
 func c13dataToks(data []c13datum) []string {
 	out := []string{itoa(len(data))}
 	for _, d := range data {
@@ -623,6 +947,35 @@ func c13inScope(c c13case) bool {
 	return true
 }
 
+// c13order classifies the REQUESTED placements the implementation accepted, in
+// call order: "negative" if one of them is at a negative offset, "outoforder"
+// if one starts below the end of the one before (what cmd/asm refuses), else
+// "inorder".
+func c13order(c c13case, res c13result) string {
+	last := 0
+	order := "inorder"
+	for i, op := range c.ops {
+		if i >= len(res.flags) || !res.flags[i] || op.kind == 'g' {
+			continue
+		}
+		off := op.off
+		if op.kind == 'a' {
+			off = 0
+			if i < len(res.appendAt) {
+				off = res.appendAt[i]
+			}
+		}
+		if off < 0 {
+			return "negative"
+		}
+		if off < last {
+			order = "outoforder"
+		}
+		last = off + op.c.size()
+	}
+	return order
+}
+
 func c13emitCase(o *out, c c13case, res c13result, st map[string]int) {
 	var strs []string
 	for _, op := range c.ops {
@@ -630,29 +983,38 @@ func c13emitCase(o *out, c c13case, res c13result, st map[string]int) {
 			strs = append(strs, op.c.s)
 		}
 	}
-	pr := c13printable(strs...)
-	req := []string{"data", hexs(c.name + "<>"), hexs(res.attrText), itoa(len(pr))}
-	for _, p := range pr {
-		req = append(req, itoa(p))
-	}
 	var opsToks []string
 	for _, op := range c.ops {
 		opsToks = append(opsToks, op.toks()...)
 	}
-	opsPart := append([]string{itoa(len(c.ops))}, opsToks...)
-	req = append(req, opsPart...)
-	line := strings.Join(req, " ")
 	if res.panicked {
 		st["panic"]++
-		o.emit(line, "panic")
+		o.emit("accept-nopanic "+itoa(len(c.ops))+" "+strings.Join(opsToks, " "), "ok")
 		return
 	}
-	resp := []string{c13flags(res.flags), itoa(res.size), itoa(len(res.data))}
-	for _, d := range res.data {
-		resp = append(resp, fmt.Sprintf("%d:%d", d.off, d.c.size()))
+	// exact comparison with the model: decisions, data list, size, and (where the order of
+	// the lines is not at issue) the text of the block.  Not for sequences with a negative
+	// offset: the property has no byte for them (finding F14b judges those).
+	if c13inScope(c) {
+		pr := c13printable(strs...)
+		req := []string{"data", hexs(c.name + "<>"), hexs(res.attrText), itoa(len(pr))}
+		for _, p := range pr {
+			req = append(req, itoa(p))
+		}
+		req = append(req, itoa(len(c.ops)))
+		req = append(req, opsToks...)
+		resp := []string{c13flags(res.flags), itoa(res.size), itoa(len(res.data))}
+		for _, d := range res.data {
+			resp = append(resp, fmt.Sprintf("%d:%d", d.off, d.c.size()))
+		}
+		if c13mono(res.data) {
+			resp = append(resp, hexs(res.block))
+		} else {
+			resp = append(resp, "-")
+		}
+		o.emit(strings.Join(req, " "), strings.Join(resp, " "))
+		st["exact_data_lines"]++
 	}
-	resp = append(resp, hexs(res.block))
-	o.emit(line, strings.Join(resp, " "))
 	// acceptors on the implementation's own output
 	acc := []string{"accept-data", c13flags(res.flags), itoa(res.size)}
 	acc = append(acc, c13dataToks(res.data)...)
@@ -669,16 +1031,41 @@ func c13emitCase(o *out, c c13case, res c13result, st map[string]int) {
 		}
 	}
 	o.emit(strings.Join(acc, " "), "ok")
-	if c13mono(res.data) {
-		al := []string{"accept-lines", hexs(c.name + "<>"), itoa(res.size)}
-		al = append(al, c13dataToks(res.data)...)
-		al = append(al, hexs(res.block))
-		o.emit(strings.Join(al, " "), "ok")
-	}
+	o.emit(fmt.Sprintf("accept-attrs %d %d %d", res.attrReq, res.attrGot, res.attrEval), "ok")
+	order := c13order(c, res)
+	al := []string{"accept-lines", order, hexs(c.name + "<>"), itoa(res.size)}
+	al = append(al, c13dataToks(res.data)...)
+	al = append(al, hexs(res.block))
+	o.emit(strings.Join(al, " "), "ok")
 	// statistics
 	st["sections"]++
+	st["sections_"+order]++
+	st[fmt.Sprintf("via_%d", c.via)]++
+	if c.decoy {
+		st["with_other_sections_in_file"]++
+	}
+	switch n := len(res.data); {
+	case n >= 100:
+		st["sections_100_or_more_data"]++
+	case n >= 10:
+		st["sections_10_to_99_data"]++
+	}
 	if !c13inScope(c) {
-		st["out_of_scope_negative_offset"]++
+		st["negative_offset_requested"]++
+	}
+	{ // generator-side count (independent of what the implementation accepts)
+		end, ooo := 0, false
+		for _, op := range c.ops {
+			if op.kind == 'p' {
+				if op.off < end {
+					ooo = true
+				}
+				end = op.off + op.c.size()
+			}
+		}
+		if ooo {
+			st["placement_below_previous_end_requested"]++
+		}
 	}
 	if !c13mono(res.data) {
 		st["data_not_in_increasing_order"]++
@@ -709,32 +1096,38 @@ func c13emitCase(o *out, c c13case, res c13result, st map[string]int) {
 // ---------------------------------------------------------------- measured: build + run
 
 type c13meas struct {
-	c    c13case
-	data []c13datum
-	size int
+	c     c13case
+	data  []c13datum
+	size  int
+	order string // c13order of the run that produced data
 }
 
-// c13measure builds one program containing all sections plus one accessor
-// function per section, runs it and emits one accept-asm request per section.
-func c13measure(dir string, ms []c13meas, o *out, st map[string]int, tag string) error {
-	if len(ms) == 0 {
-		return nil
+// c13asmClass names the assembler's (or linker's) complaint.
+func c13asmClass(out string) string {
+	switch {
+	case strings.Contains(out, "overlapping DATA entry"):
+		return "overlapping-DATA-entry"
+	case strings.Contains(out, "prepwrite: bad off"):
+		return "bad-off"
+	case strings.Contains(out, "slice bounds out of range"):
+		return "bad-off"
 	}
-	if err := os.RemoveAll(dir); err != nil {
-		return err
-	}
-	if err := os.MkdirAll(dir, 0o755); err != nil {
-		return err
-	}
+	return "other"
+}
+
+// c13program prints the file holding the given sections (each with an accessor
+// function returning its address) and the Go side that dumps their bytes.
+func c13program(ms []c13meas, idx []int, tag string) (asm, stubs, mainsrc []byte, err error) {
 	ctx := build.NewContext()
 	var globals []*ir.Global
-	for i := range ms {
-		ms[i].c.name = fmt.Sprintf("%s%d", tag, i)
+	for _, i := range idx {
+		c := ms[i].c
+		c.name = fmt.Sprintf("%s%d", tag, i)
 		var fl []bool
-		globals = append(globals, c13apply(ctx, ms[i].c, &fl))
+		globals = append(globals, c13apply(ctx, c, &fl))
 	}
-	for i, g := range globals {
-		ctx.Function(fmt.Sprintf("addr_%s%d", tag, i))
+	for k, g := range globals {
+		ctx.Function(fmt.Sprintf("addr_%s%d", tag, idx[k]))
 		ctx.Attributes(attr.NOSPLIT)
 		ctx.SignatureExpr("func() uintptr")
 		p := ctx.GP64()
@@ -744,117 +1137,257 @@ func c13measure(dir string, ms []c13meas, o *out, st map[string]int, tag string)
 	}
 	file, _ := ctx.Result() // placement errors are expected
 	if err := pass.Compile.Execute(file); err != nil {
-		return fmt.Errorf("measure: compile: %v", err)
+		return nil, nil, nil, fmt.Errorf("measure: compile: %v", err)
 	}
 	cfg := printer.Config{Name: "avoh", Pkg: "main"}
-	asm, err := printer.NewGoAsm(cfg).Print(file)
+	if asm, err = printer.NewGoAsm(cfg).Print(file); err != nil {
+		return
+	}
+	if stubs, err = printer.NewStubs(cfg).Print(file); err != nil {
+		return
+	}
+	var b bytes.Buffer
+	b.WriteString("package main\n\nimport (\n\t\"fmt\"\n\t\"unsafe\"\n)\n\nfunc dump(i int, p uintptr, n int) {\n\tb := unsafe.Slice((*byte)(unsafe.Pointer(p)), n)\n\tfmt.Printf(\"%d %x\\n\", i, b)\n}\n\nfunc main() {\n")
+	for _, i := range idx {
+		fmt.Fprintf(&b, "\tdump(%d, addr_%s%d(), %d)\n", i, tag, i, ms[i].size)
+	}
+	b.WriteString("}\n")
+	return asm, stubs, b.Bytes(), nil
+}
+
+// c13buildRun builds and runs the program of the sections idx; got[i] = hex of
+// the bytes of section i.  ok=false: the build failed (log returned).
+func c13buildRun(dir string, ms []c13meas, idx []int, tag string) (got map[int]string, ok bool, log string, err error) {
+	if err = os.RemoveAll(dir); err != nil {
+		return
+	}
+	if err = os.MkdirAll(dir, 0o755); err != nil {
+		return
+	}
+	asm, stubs, mainsrc, err := c13program(ms, idx, tag)
 	if err != nil {
-		return err
+		return
 	}
-	stubs, err := printer.NewStubs(cfg).Print(file)
-	if err != nil {
-		return err
-	}
-	var mainsrc bytes.Buffer
-	mainsrc.WriteString("package main\n\nimport (\n\t\"fmt\"\n\t\"unsafe\"\n)\n\nfunc dump(i int, p uintptr, n int) {\n\tb := unsafe.Slice((*byte)(unsafe.Pointer(p)), n)\n\tfmt.Printf(\"%d %x\\n\", i, b)\n}\n\nfunc main() {\n")
-	for i, m := range ms {
-		fmt.Fprintf(&mainsrc, "\tdump(%d, addr_%s%d(), %d)\n", i, tag, i, m.size)
-	}
-	mainsrc.WriteString("}\n")
 	files := map[string][]byte{
 		"go.mod":   []byte("module c13data\n\ngo 1.21\n"),
 		"data.s":   asm,
 		"stubs.go": stubs,
-		"main.go":  mainsrc.Bytes(),
+		"main.go":  mainsrc,
 	}
 	for name, data := range files {
-		if err := os.WriteFile(filepath.Join(dir, name), data, 0o644); err != nil {
-			return err
+		if err = os.WriteFile(filepath.Join(dir, name), data, 0o644); err != nil {
+			return
 		}
 	}
 	absdir, err := filepath.Abs(dir)
 	if err != nil {
-		return err
+		return
 	}
 	cmd := exec.Command("go", "build", "-o", "c13data", ".")
 	cmd.Dir = absdir
-	got := map[int]string{}
+	got = map[int]string{}
 	buildOut, berr := cmd.CombinedOutput()
-	if berr == nil {
-		run := exec.Command(filepath.Join(absdir, "c13data"))
-		run.Dir = absdir
-		outp, _ := run.Output()
-		for _, l := range strings.Split(string(outp), "\n") {
-			fs := strings.Fields(l)
-			if len(fs) >= 1 {
-				if i, err := strconv.Atoi(fs[0]); err == nil {
-					if len(fs) == 1 {
-						got[i] = ""
-					} else {
-						got[i] = fs[1]
-					}
+	if berr != nil {
+		os.WriteFile(filepath.Join(dir, "build.log"), buildOut, 0o644)
+		return got, false, string(buildOut), nil
+	}
+	run := exec.Command(filepath.Join(absdir, "c13data"))
+	run.Dir = absdir
+	outp, _ := run.Output()
+	for _, l := range strings.Split(string(outp), "\n") {
+		fs := strings.Fields(l)
+		if len(fs) >= 1 {
+			if i, err := strconv.Atoi(fs[0]); err == nil {
+				if len(fs) == 1 {
+					got[i] = ""
+				} else {
+					got[i] = fs[1]
 				}
 			}
 		}
-	} else {
+	}
+	return got, true, "", nil
+}
+
+// c13printAlone prints section i alone into dir and returns the path of the file.
+func c13printAlone(dir string, m c13meas, i int) (src string, err error) {
+	ctx := build.NewContext()
+	var fl []bool
+	c := m.c
+	c.name = fmt.Sprintf("n%d", i)
+	c13apply(ctx, c, &fl)
+	file, _ := ctx.Result()
+	if err := pass.Compile.Execute(file); err != nil {
+		return "", err
+	}
+	asm, err := printer.NewGoAsm(printer.Config{Name: "avoh", Pkg: "p"}).Print(file)
+	if err != nil {
+		return "", err
+	}
+	src = filepath.Join(dir, fmt.Sprintf("n%d.s", i))
+	return src, os.WriteFile(src, asm, 0o644)
+}
+
+// c13asmMany assembles the given sections alone, the assembler runs in parallel;
+// result: index -> class ("" = accepted).
+func c13asmMany(dir string, ms []c13meas, idx []int) (map[int]string, error) {
+	if err := os.MkdirAll(dir, 0o755); err != nil {
+		return nil, err
+	}
+	srcs := map[int]string{}
+	for _, i := range idx { // printing uses the package-level context for some sections: one at a time
+		p, err := c13printAlone(dir, ms[i], i)
+		if err != nil {
+			return nil, err
+		}
+		srcs[i] = p
+	}
+	res := map[int]string{}
+	var mu sync.Mutex
+	var wg sync.WaitGroup
+	sem := make(chan struct{}, 8)
+	inc := filepath.Join(goroot(), "pkg", "include")
+	for _, i := range idx {
+		wg.Add(1)
+		go func(i int) {
+			defer wg.Done()
+			sem <- struct{}{}
+			defer func() { <-sem }()
+			src := srcs[i]
+			outp, aerr := exec.Command("go", "tool", "asm", "-I", inc, "-p", "p", "-o", src+".o", src).CombinedOutput()
+			cl := ""
+			if aerr != nil {
+				cl = c13asmClass(string(outp))
+			}
+			mu.Lock()
+			res[i] = cl
+			mu.Unlock()
+		}(i)
+	}
+	wg.Wait()
+	return res, nil
+}
+
+// c13measure: the sections the real assembler accepts are built into one
+// program (with one accessor function each), the program is run and one
+// accept-asm request per section carries the bytes found at the symbol.  When
+// the batch does not build, every section is assembled alone to find the guilty
+// ones (they get `fail:<class>`), the rest is rebuilt, and a build that still
+// fails (a link-time complaint) is bisected; so a failure is blamed on the
+// section that causes it.
+func c13measure(dir string, ms []c13meas, o *out, st map[string]int, tag string) error {
+	if len(ms) == 0 {
+		return nil
+	}
+	status := map[int]string{} // "" pending, "ok", "fail:class"
+	got := map[int]string{}
+	var pending []int
+	// sections whose requested order the assembler is known to refuse are assembled alone first
+	var alone []int
+	for i, m := range ms {
+		if m.order != "inorder" {
+			alone = append(alone, i)
+		} else {
+			pending = append(pending, i)
+		}
+	}
+	if len(alone) > 0 {
+		cls, err := c13asmMany(filepath.Join(dir, "alone"), ms, alone)
+		if err != nil {
+			return err
+		}
+		for _, i := range alone {
+			if cls[i] == "" {
+				pending = append(pending, i) // accepted after all: read its bytes like the others
+			} else {
+				status[i] = "fail:" + cls[i]
+				st["assembled_alone_rejected_"+cls[i]]++
+			}
+		}
+		sort.Ints(pending)
+	}
+	builds := 0
+	var solve func(idx []int, first bool) error
+	solve = func(idx []int, first bool) error {
+		if len(idx) == 0 {
+			return nil
+		}
+		builds++
+		g, ok, log, err := c13buildRun(filepath.Join(dir, "prog"), ms, idx, tag)
+		if err != nil {
+			return err
+		}
+		if ok {
+			for _, i := range idx {
+				if hx, have := g[i]; have {
+					got[i] = hx
+					status[i] = "ok"
+				} else {
+					status[i] = "fail:no-output"
+				}
+			}
+			return nil
+		}
 		st["measured_build_failed"]++
-		os.WriteFile(filepath.Join(dir, "build.log"), buildOut, 0o644)
+		if len(idx) == 1 {
+			status[idx[0]] = "fail:" + c13asmClass(log)
+			return nil
+		}
+		if first {
+			// find the sections the assembler refuses on their own
+			cls, err := c13asmMany(filepath.Join(dir, "guilty"), ms, idx)
+			if err != nil {
+				return err
+			}
+			var rest []int
+			for _, i := range idx {
+				if cls[i] != "" {
+					status[i] = "fail:" + cls[i]
+				} else {
+					rest = append(rest, i)
+				}
+			}
+			if len(rest) < len(idx) {
+				return solve(rest, false)
+			}
+		}
+		if builds > 40 { // bounded: blame what is left as a whole
+			for _, i := range idx {
+				status[i] = "fail:batch"
+			}
+			return nil
+		}
+		if err := solve(idx[:len(idx)/2], false); err != nil {
+			return err
+		}
+		return solve(idx[len(idx)/2:], false)
+	}
+	if err := solve(pending, true); err != nil {
+		return err
 	}
 	for i, m := range ms {
-		status := "ok"
-		hx, ok := got[i]
-		if !ok {
-			status = "fail"
-		}
+		stt := status[i]
+		hx := got[i]
 		if hx == "" {
 			hx = "-"
 		}
-		req := []string{"accept-asm", "mono", status, itoa(m.size)}
+		if stt == "" {
+			stt = "fail:not-built"
+		}
+		req := []string{"accept-asm", m.order, stt, itoa(m.size)}
 		req = append(req, c13dataToks(m.data)...)
 		req = append(req, hx)
 		o.emit(strings.Join(req, " "), "ok")
 		st["measured_sections"]++
-		st["measured_bytes"] += m.size
-	}
-	return nil
-}
-
-// c13asmOnly assembles one section alone with `go tool asm` (sections whose
-// data are not in increasing order: the assembler is expected to complain).
-func c13asmOnly(dir string, m c13meas, o *out, st map[string]int, idx int) error {
-	if err := os.MkdirAll(dir, 0o755); err != nil {
-		return err
-	}
-	ctx := build.NewContext()
-	var fl []bool
-	m.c.name = fmt.Sprintf("n%d", idx)
-	c13apply(ctx, m.c, &fl)
-	file, _ := ctx.Result()
-	if err := pass.Compile.Execute(file); err != nil {
-		return err
-	}
-	asm, err := printer.NewGoAsm(printer.Config{Name: "avoh", Pkg: "p"}).Print(file)
-	if err != nil {
-		return err
-	}
-	src := filepath.Join(dir, fmt.Sprintf("n%d.s", idx))
-	if err := os.WriteFile(src, asm, 0o644); err != nil {
-		return err
-	}
-	cmd := exec.Command("go", "tool", "asm", "-I", filepath.Join(goroot(), "pkg", "include"), "-p", "p", "-o", src+".o", src)
-	outp, aerr := cmd.CombinedOutput()
-	status := "ok-bytes-not-read"
-	if aerr != nil {
-		status = "fail"
-		if strings.Contains(string(outp), "overlapping DATA entry") {
-			st["assembler_says_overlapping_DATA_entry"]++
+		if stt == "ok" {
+			st["measured_sections_read_back"]++
+			st["measured_bytes"] += m.size
+			if len(m.data) >= 100 {
+				st["measured_sections_100_or_more_data"]++
+			}
 		}
 	}
-	req := []string{"accept-asm", "nonmono", status, itoa(m.size)}
-	req = append(req, c13dataToks(m.data)...)
-	req = append(req, "-")
-	o.emit(strings.Join(req, " "), "ok")
-	st["nonmonotone_sections_assembled_alone"]++
+	st["measured_builds"] += builds
 	return nil
 }
 
@@ -914,8 +1447,9 @@ func c13sweepF32(start, count uint64, budget time.Duration) (checked uint64, bad
 					f := math.Float32frombits(bits)
 					// the real code: operand.F32.String() is what Asm() wraps in `$(…)` (tied on a sample below)
 					s := operand.F32(f).String()
+					// cmd/asm: a literal without a decimal point is an INTEGER (c13asmFloat)
 					v, err := strconv.ParseFloat(s, 64)
-					if err != nil || math.Float32bits(float32(v)) != bits {
+					if err != nil || math.Float32bits(float32(v)) != bits || !strings.ContainsAny(s, ".eE") {
 						mu.Lock()
 						bad = append(bad, bits)
 						mu.Unlock()
@@ -1007,6 +1541,76 @@ func c13replayLine(o *out, l string, st map[string]int, k int) {
 			}
 		}
 		c13emitCase(o, c, c13run(c), st)
+	case "accept-data":
+		// accept-data <flags> <size> <ndata> (off const)… <nops> ops… : re-run the call sequence
+		if len(ts) < 5 {
+			return
+		}
+		nd, err := strconv.Atoi(ts[3])
+		i := 4 + 2*nd
+		if err != nil || i >= len(ts) {
+			return
+		}
+		i++ // nops
+		c := c13case{name: fmt.Sprintf("r%d", k), attrs: attr.RODATA | attr.NOPTR}
+		for i < len(ts) {
+			switch ts[i] {
+			case "p", "a":
+				if i+2 >= len(ts) {
+					return
+				}
+				off, _ := strconv.Atoi(ts[i+1])
+				cst, ok := c13parseConst(ts[i+2])
+				if !ok {
+					return
+				}
+				c.ops = append(c.ops, c13op{kind: ts[i][0], off: off, c: cst})
+				i += 3
+			case "g":
+				if i+1 >= len(ts) {
+					return
+				}
+				n, _ := strconv.Atoi(ts[i+1])
+				c.ops = append(c.ops, c13op{kind: 'g', off: n})
+				i += 2
+			default:
+				return
+			}
+		}
+		c13emitCase(o, c, c13run(c), st)
+	case "accept-lines", "accept-asm":
+		// only the final data list is in the request: place each datum at its offset, in the order given
+		j := 4
+		if len(ts) <= j {
+			return
+		}
+		nd, err := strconv.Atoi(ts[j])
+		if err != nil || j+2*nd >= len(ts) {
+			return
+		}
+		c := c13case{name: fmt.Sprintf("r%d", k), attrs: attr.RODATA | attr.NOPTR}
+		for d := 0; d < nd; d++ {
+			off, _ := strconv.Atoi(ts[j+1+2*d])
+			cst, ok := c13parseConst(ts[j+2+2*d])
+			if !ok {
+				return
+			}
+			c.ops = append(c.ops, c13op{kind: 'p', off: off, c: cst})
+		}
+		res := c13run(c)
+		c13emitCase(o, c, res, st)
+		if ts[0] == "accept-asm" && !res.panicked {
+			ms := []c13meas{{c: c, data: res.data, size: res.size, order: c13order(c, res)}}
+			c13measure(filepath.Join("meas", fmt.Sprintf("replay%d", k)), ms, o, st, "r")
+		}
+	case "fparse":
+		// fparse <len> <text hex>: Lean's model of the assembler's reading of `$(text)` against the harness's (strconv)
+		if len(ts) >= 3 {
+			n, _ := strconv.Atoi(ts[1])
+			if text, err := unhexs(ts[2]); err == nil {
+				c13emitFparse(o, n, text, st)
+			}
+		}
 	case "accept-f32", "f32":
 		if len(ts) >= 2 {
 			if b, err := strconv.ParseUint(ts[1], 16, 32); err == nil {
@@ -1032,6 +1636,17 @@ func c13replayLine(o *out, l string, st map[string]int, k int) {
 			}
 		}
 	}
+}
+
+// c13emitFparse ties Lean's model of cmd/asm's reading of a parenthesised DATA value to the harness's.
+func c13emitFparse(o *out, n int, text string, st map[string]int) {
+	ab, ok := c13asmFloat(text, n)
+	resp := strconv.FormatUint(ab, 16)
+	if !ok {
+		resp = "unparsable"
+	}
+	o.emit(fmt.Sprintf("fparse %d %s", n, hexs(text)), resp)
+	st["fparse_probes"]++
 }
 
 func c13emitF32(o *out, bits uint32, st map[string]int) {
@@ -1130,6 +1745,13 @@ func init() {
 			c13emitF64(o, c13randF64(r), st)
 		}
 
+		// literals WITHOUT a decimal point are integers for cmd/asm (issue 387): the two models of the assembler agree
+		for _, t := range []string{"2", "-2", "0", "-0", "+0", "100", "16777216", "4294967296", "-1", "--1", "010", "9007199254740993",
+			"18446744073709551615", "18446744073709551616", "2.", "2.0", "-2.0", "0.0", "-0.0", ".5", "00.5", "1.5.5", "", "-", "NaN.0", "+Inf.0"} {
+			c13emitFparse(o, 4, t, st)
+			c13emitFparse(o, 8, t, st)
+		}
+
 		// 2. placement sequences
 		fixed := []c13case{
 			{name: "e0", attrs: attr.RODATA | attr.NOPTR},
@@ -1138,25 +1760,64 @@ func init() {
 			{name: "e3", attrs: attr.NOPTR, ops: []c13op{{kind: 'p', off: 8, c: c13const{kind: "u32", u: 1}}, {kind: 'p', off: 0, c: c13const{kind: "u32", u: 2}}}}, // out of order (F14)
 			{name: "e4", attrs: attr.NOPTR, ops: []c13op{{kind: 'p', off: 0, c: c13const{kind: "s", s: ""}}, {kind: 'p', off: 0, c: c13const{kind: "u32", u: 5}}, {kind: 'p', off: 2, c: c13const{kind: "s", s: ""}}, {kind: 'p', off: 4, c: c13const{kind: "s", s: ""}}}},
 			{name: "e5", attrs: attr.NOPTR, ops: []c13op{{kind: 'a', c: c13const{kind: "f64", u: 0x8000000000000000}}, {kind: 'g', off: 32}, {kind: 'a', c: c13const{kind: "f32", u: 0x80000000}}, {kind: 'p', off: 8, c: c13const{kind: "s", s: "abc\x00\xff\"é"}}}},
-			{name: "e6", attrs: attr.RODATA | attr.NOPTR, viaConstData: true, ops: []c13op{{kind: 'a', c: c13const{kind: "u64", u: 0xffffffffffffffff}}}},
+			{name: "e6", attrs: attr.RODATA | attr.NOPTR, via: c13viaCtxConst, ops: []c13op{{kind: 'a', c: c13const{kind: "u64", u: 0xffffffffffffffff}}}},
 			{name: "e7", attrs: attr.NOPTR, ops: []c13op{{kind: 'p', off: -4, c: c13const{kind: "u32", u: 1}}}},
 			{name: "e9", attrs: attr.NOPTR, ops: []c13op{{kind: 'a', c: c13const{kind: "s", s: "p\u00b7q"}}, {kind: 'a', c: c13const{kind: "u8", u: 7}}}}, // F15
+			{name: "e10", attrs: attr.RODATA | attr.NOPTR, via: c13viaPkg, decoy: true, ops: []c13op{{kind: 'p', off: 0, c: c13const{kind: "u32", u: 1}}, {kind: 'p', off: 4, c: c13const{kind: "u32", u: 2}}, {kind: 'p', off: 2, c: c13const{kind: "u16", u: 3}}, {kind: 'a', c: c13const{kind: "f32", u: 0x40000000}}}},
+			{name: "e11", via: c13viaPkgConst, ops: []c13op{{kind: 'a', c: c13const{kind: "f64", u: 0x4000000000000000}}}},
+			{name: "e12", attrs: attr.NOPTR | attr.DUPOK, via: c13viaIRDirect, decoy: true, ops: []c13op{{kind: 'a', c: c13const{kind: "s", s: "ir"}}, {kind: 'p', off: 1, c: c13const{kind: "u8", u: 3}}, {kind: 'p', off: 2, c: c13const{kind: "i32", i: -1}}}},
+			{name: "e13", attrs: attr.NOPTR, ops: []c13op{{kind: 'p', off: 0, c: c13const{kind: "u32", u: 1}}, {kind: 'p', off: -4, c: c13const{kind: "u32", u: 2}}}},
+			{name: "e14", attrs: attr.NOPTR, via: c13viaPkg, ops: []c13op{{kind: 'p', off: -2, c: c13const{kind: "s", s: "ab"}}, {kind: 'p', off: 0, c: c13const{kind: "u8", u: 2}}}},
+			{name: "e15", attrs: 0x8000 | attr.NOPTR, ops: []c13op{{kind: 'a', c: c13const{kind: "u8", u: 2}}}},
 			{name: "e8", attrs: attr.NOPTR, ops: []c13op{{kind: 'p', off: 4, c: c13const{kind: "i64", i: math.MinInt64}}, {kind: 'p', off: 0, c: c13const{kind: "i64", i: 1}}, {kind: 'p', off: 12, c: c13const{kind: "i16", i: -32768}}}},
 		}
-		var meas, nonmono []c13meas
+		// a fixed table: 300 adjacent entries of every kind, then probes on old entries (all rejected), so that
+		// every run measures at least one large section end to end
+		{
+			tr := newRng(12345)
+			tc := c13case{name: "tbl", attrs: attr.RODATA | attr.NOPTR}
+			off := 0
+			var los []int
+			for i := 0; i < 300; i++ {
+				cst := c13smallConst(tr)
+				if cst.size() == 0 {
+					cst = c13const{kind: "u8", u: uint64(i & 0xff)}
+				}
+				tc.ops = append(tc.ops, c13op{kind: 'p', off: off, c: cst})
+				los = append(los, off)
+				off += cst.size()
+			}
+			for _, i := range []int{0, 1, 7, 100, 150, 200, 286, 287, 288, 298, 299} {
+				tc.ops = append(tc.ops, c13op{kind: 'p', off: los[i], c: c13const{kind: "u8", u: 0xee}})
+			}
+			tc.ops = append(tc.ops, c13op{kind: 'a', off: off, c: c13const{kind: "u32", u: 0xcafef00d}})
+			fixed = append(fixed, tc)
+		}
+		var meas []c13meas
+		counts := map[string]int{}
+		safeAttrs := []attr.Attribute{attr.NOPTR, attr.RODATA | attr.NOPTR, attr.NOPTR | attr.DUPOK, attr.RODATA | attr.NOPTR | attr.DUPOK}
 		consider := func(c c13case, res c13result) {
-			if res.panicked || !c13inScope(c) || res.size > 1<<16 {
+			if res.panicked || res.size > 1<<16 {
 				return
 			}
-			c.attrs = pick(r, []attr.Attribute{attr.NOPTR, attr.RODATA | attr.NOPTR, attr.NOPTR | attr.DUPOK})
-			m := c13meas{c: c, data: res.data, size: res.size}
-			if c13mono(res.data) {
-				if len(meas) < *nmeas {
-					meas = append(meas, m)
-				}
-			} else if len(nonmono) < *nnonmono {
-				nonmono = append(nonmono, m)
+			order := c13order(c, res)
+			limit := *nmeas
+			switch order {
+			case "outoforder":
+				limit = *nnonmono
+			case "negative":
+				limit = *nnonmono/2 + 2
 			}
+			key := order
+			if order == "inorder" && len(res.data) >= 100 {
+				key, limit = "inorder-large", 12+*nmeas/40 // always some large tables among the measured sections
+			}
+			if counts[key] >= limit {
+				return
+			}
+			counts[key]++
+			c.attrs = pick(r, safeAttrs) // attribute sets the linker accepts for pointer-free asm data
+			meas = append(meas, c13meas{c: c, data: res.data, size: res.size, order: order})
 		}
 		for _, c := range fixed {
 			res := c13run(c)
@@ -1187,7 +1848,7 @@ func init() {
 		}
 		fc := c13case{name: "floats", attrs: attr.RODATA | attr.NOPTR, ops: fl}
 		fres := c13run(fc)
-		meas = append(meas, c13meas{c: fc, data: fres.data, size: fres.size})
+		meas = append(meas, c13meas{c: fc, data: fres.data, size: fres.size, order: "inorder"})
 		if err := c13measure(filepath.Join(*workdir, "prog"), meas, o, st, "m"); err != nil {
 			return err
 		}
@@ -1210,12 +1871,6 @@ func init() {
 				st["f11_probe_failed"]++
 			}
 		}
-		for i, m := range nonmono {
-			if err := c13asmOnly(filepath.Join(*workdir, "nonmono"), m, o, st, i); err != nil {
-				return err
-			}
-		}
-
 		// 4. float32 sweep (measured, in-process: the conversion cmd/asm applies)
 		start := (*f.seed * 0x51ed27) % (1 << 32)
 		if *f32count >= 1<<32 {
@@ -1264,7 +1919,7 @@ func c13measureRaw(dir string, c c13case, res *c13out2) error {
 	defer o.close()
 	st := map[string]int{}
 	r := c13run(c)
-	ms := []c13meas{{c: c, data: r.data, size: r.size}}
+	ms := []c13meas{{c: c, data: r.data, size: r.size, order: "inorder"}}
 	if err := c13measure(dir, ms, o, st, "w"); err != nil {
 		return err
 	}
